@@ -203,8 +203,11 @@ def r16_34(ck: Check) -> None:
 
 
 def r16_5(ck: Check) -> None:
+    from .c12 import exact_guard
     s = ck.summ(CONS + "validate_sashimi_range", 0)
     require_guard(ck, "R16.5", s, Spec(s, ("v",)), "v > %d" % MAX_SUPPLY, "the validator's amount limit is the documented maximum supply")
+    exact_guard(ck, "R16.5", s, Spec(s, ("v",)), "v <= 0 or v > %d" % MAX_SUPPLY,
+                "the limit is inclusive: exactly the maximum supply (and every amount in (0, max]) is a valid amount")
 
 
 def r16_schedule(ck: Check) -> None:
